@@ -1,33 +1,1233 @@
 //! C19 — SDP parses without panicking and round-trips every description
+//!
+//! Sub-checks
+//! * `parse_text`  — arbitrary / ASCII-biased / line-shaped text, grammar-derived lines with
+//!   out-of-range numbers, byte- and line-level mutations of valid SDP: `SessionDescription::parse`
+//!   returns (Ok or Err), never panics (overflow checks are on).
+//! * `roundtrip`   — generated `SessionDescription` values (mirror type `SdpCase`): value → ezk value
+//!   → `Display` → `parse` → compared FIELD-WISE with the generated value; print→parse→print fixpoint;
+//!   independent line scanner for the placement of media-level lines; and the reference rendering
+//!   (`refmodel::sdp`) of the same value must parse to the same value.
+//! * `whole_token` — metamorphic: a token character appended to the media-type / protocol /
+//!   crypto-suite token of a valid description yields an error or the `Other`/`Ext` variant with
+//!   the whole token, never the well-known variant.
 
 use crate::engine::*;
+use crate::gen::sdp::*;
+use crate::refmodel::sdp as rf;
 use bytesstr::BytesStr;
 use proptest::prelude::*;
-use sdp_types::SessionDescription;
+use sdp_types as ez;
+use serde::{Deserialize, Serialize};
+use std::net::{IpAddr, Ipv4Addr, Ipv6Addr};
 
-fn any_text() -> BoxedStrategy<String> {
+// ---------------------------------------------------------------------------------------------
+// mirror value -> ezk value (public API only)
+// ---------------------------------------------------------------------------------------------
+
+fn bs(s: &str) -> BytesStr {
+    BytesStr::from(s)
+}
+
+fn v4(b: &[u8; 4]) -> Ipv4Addr {
+    Ipv4Addr::new(b[0], b[1], b[2], b[3])
+}
+
+fn v6(s: &[u16; 8]) -> Ipv6Addr {
+    Ipv6Addr::new(s[0], s[1], s[2], s[3], s[4], s[5], s[6], s[7])
+}
+
+fn to_tagged(t: &TaggedC) -> ez::TaggedAddress {
+    match t {
+        TaggedC::Ip4(b) => ez::TaggedAddress::IP4(v4(b)),
+        TaggedC::Ip4Fqdn(h) => ez::TaggedAddress::IP4FQDN(bs(h)),
+        TaggedC::Ip6(s) => ez::TaggedAddress::IP6(v6(s)),
+        TaggedC::Ip6Fqdn(h) => ez::TaggedAddress::IP6FQDN(bs(h)),
+    }
+}
+
+fn to_untagged(t: &UntaggedC) -> ez::UntaggedAddress {
+    match t {
+        UntaggedC::V4(b) => ez::UntaggedAddress::IpAddress(IpAddr::V4(v4(b))),
+        UntaggedC::V6(s) => ez::UntaggedAddress::IpAddress(IpAddr::V6(v6(s))),
+        UntaggedC::Fqdn(h) => ez::UntaggedAddress::Fqdn(bs(h)),
+    }
+}
+
+fn to_dir(d: DirC) -> ez::Direction {
+    match d {
+        DirC::SendRecv => ez::Direction::SendRecv,
+        DirC::RecvOnly => ez::Direction::RecvOnly,
+        DirC::SendOnly => ez::Direction::SendOnly,
+        DirC::Inactive => ez::Direction::Inactive,
+    }
+}
+
+fn to_conn(c: &ConnC) -> ez::Connection {
+    ez::Connection {
+        address: to_tagged(&c.address),
+        ttl: c.ttl,
+        num: c.num,
+    }
+}
+
+fn to_bw(b: &BwC) -> ez::Bandwidth {
+    ez::Bandwidth {
+        type_: bs(&b.type_),
+        bandwidth: b.bandwidth,
+    }
+}
+
+fn to_attr(a: &AttrC) -> ez::UnknownAttribute {
+    ez::UnknownAttribute {
+        name: bs(&a.name),
+        value: a.value.as_deref().map(bs),
+    }
+}
+
+fn suite_table() -> [ez::SrtpSuite; 9] {
+    // same order as SUITE_NAMES
+    [
+        ez::SrtpSuite::AES_CM_128_HMAC_SHA1_80,
+        ez::SrtpSuite::AES_CM_128_HMAC_SHA1_32,
+        ez::SrtpSuite::F8_128_HMAC_SHA1_80,
+        ez::SrtpSuite::AES_192_CM_HMAC_SHA1_80,
+        ez::SrtpSuite::AES_192_CM_HMAC_SHA1_32,
+        ez::SrtpSuite::AES_256_CM_HMAC_SHA1_80,
+        ez::SrtpSuite::AES_256_CM_HMAC_SHA1_32,
+        ez::SrtpSuite::AEAD_AES_128_GCM,
+        ez::SrtpSuite::AEAD_AES_256_GCM,
+    ]
+}
+
+fn to_suite(s: &SuiteC) -> ez::SrtpSuite {
+    match s {
+        SuiteC::Known(i) => suite_table()[*i as usize % 9].clone(),
+        SuiteC::Ext(t) => ez::SrtpSuite::Ext(bs(t)),
+    }
+}
+
+fn to_key(k: &KeyC) -> ez::SrtpKeyingMaterial {
+    ez::SrtpKeyingMaterial {
+        key_and_salt: bs(&k.key_and_salt),
+        lifetime: k.lifetime,
+        mki: k.mki,
+    }
+}
+
+fn to_param(p: &ParamC) -> ez::SrtpSessionParam {
+    use ez::SrtpSessionParam as P;
+    match p {
+        ParamC::Kdr(v) => P::Kdr(*v),
+        ParamC::UnencryptedSrtp => P::UnencryptedSrtp,
+        ParamC::UnencryptedSrtcp => P::UnencryptedSrtcp,
+        ParamC::UnauthenticatedSrtp => P::UnauthenticatedSrtp,
+        ParamC::FecOrderFecSrtp => P::FecOrder(ez::SrtpFecOrder::FecSrtp),
+        ParamC::FecOrderSrtpFec => P::FecOrder(ez::SrtpFecOrder::SrtpFec),
+        ParamC::FecKey(ks) => P::FecKey(ks.iter().map(to_key).collect()),
+        ParamC::Wsh(v) => P::WindowSizeHint(*v),
+        ParamC::Ext(s) => P::Ext(bs(s)),
+    }
+}
+
+fn to_media(m: &MediaC) -> ez::MediaDescription {
+    ez::MediaDescription {
+        media: ez::Media {
+            media_type: match m.media_type {
+                MediaTypeC::Audio => ez::MediaType::Audio,
+                MediaTypeC::Video => ez::MediaType::Video,
+                MediaTypeC::Text => ez::MediaType::Text,
+                MediaTypeC::App => ez::MediaType::App,
+            },
+            port: m.port,
+            ports_num: m.ports_num,
+            proto: match &m.proto {
+                ProtoC::Udp => ez::TransportProtocol::Unspecified,
+                ProtoC::RtpAvp => ez::TransportProtocol::RtpAvp,
+                ProtoC::RtpSavp => ez::TransportProtocol::RtpSavp,
+                ProtoC::RtpSavpf => ez::TransportProtocol::RtpSavpf,
+                ProtoC::Other(s) => ez::TransportProtocol::Other(bs(s)),
+            },
+            fmts: m.fmts.clone(),
+        },
+        direction: to_dir(m.direction),
+        connection: m.connection.as_ref().map(to_conn),
+        bandwidth: m.bandwidth.iter().map(to_bw).collect(),
+        rtcp_attr: m.rtcp.as_ref().map(|r| ez::Rtcp {
+            port: r.port,
+            address: r.address.as_ref().map(to_tagged),
+        }),
+        rtpmaps: m
+            .rtpmaps
+            .iter()
+            .map(|r| ez::RtpMap {
+                payload: r.payload,
+                encoding: bs(&r.encoding),
+                clock_rate: r.clock_rate,
+                params: r.params.as_deref().map(bs),
+            })
+            .collect(),
+        fmtps: m
+            .fmtps
+            .iter()
+            .map(|f| ez::Fmtp {
+                format: f.format,
+                params: bs(&f.params),
+            })
+            .collect(),
+        ice_ufrag: m.ice_ufrag.as_deref().map(|u| ez::IceUsernameFragment { ufrag: bs(u) }),
+        ice_pwd: m.ice_pwd.as_deref().map(|p| ez::IcePassword { pwd: bs(p) }),
+        ice_candidates: m
+            .candidates
+            .iter()
+            .map(|c| ez::IceCandidate {
+                foundation: bs(&c.foundation),
+                component: c.component,
+                transport: bs(&c.transport),
+                priority: c.priority,
+                address: to_untagged(&c.address),
+                port: c.port,
+                typ: bs(&c.typ),
+                rel_addr: c.rel_addr.as_ref().map(to_untagged),
+                rel_port: c.rel_port,
+                unknown: c.unknown.iter().map(|(k, v)| (bs(k), bs(v))).collect(),
+            })
+            .collect(),
+        ice_end_of_candidates: m.end_of_candidates,
+        crypto: m
+            .crypto
+            .iter()
+            .map(|c| ez::SrtpCrypto {
+                tag: c.tag,
+                suite: to_suite(&c.suite),
+                keys: c.keys.iter().map(to_key).collect(),
+                params: c.params.iter().map(to_param).collect(),
+            })
+            .collect(),
+        attributes: m.attributes.iter().map(to_attr).collect(),
+    }
+}
+
+fn to_ezk(c: &SdpCase) -> ez::SessionDescription {
+    ez::SessionDescription {
+        name: bs(&c.name),
+        origin: ez::Origin {
+            username: bs(&c.origin.username),
+            session_id: bs(&c.origin.session_id),
+            session_version: bs(&c.origin.session_version),
+            address: to_tagged(&c.origin.address),
+        },
+        time: ez::Time {
+            start: c.time.0,
+            stop: c.time.1,
+        },
+        direction: to_dir(c.direction),
+        connection: c.connection.as_ref().map(to_conn),
+        bandwidth: c.bandwidth.iter().map(to_bw).collect(),
+        ice_options: ez::IceOptions {
+            options: c.ice_options.iter().map(|o| bs(o)).collect(),
+        },
+        ice_lite: c.ice_lite,
+        ice_ufrag: c.ice_ufrag.as_deref().map(|u| ez::IceUsernameFragment { ufrag: bs(u) }),
+        ice_pwd: c.ice_pwd.as_deref().map(|p| ez::IcePassword { pwd: bs(p) }),
+        attributes: c.attributes.iter().map(to_attr).collect(),
+        media_descriptions: c.media.iter().map(to_media).collect(),
+    }
+}
+
+// ---------------------------------------------------------------------------------------------
+// ezk value -> mirror value (observation of what the parser returned)
+// ---------------------------------------------------------------------------------------------
+
+fn from_tagged(t: &ez::TaggedAddress) -> TaggedC {
+    match t {
+        ez::TaggedAddress::IP4(a) => TaggedC::Ip4(a.octets()),
+        ez::TaggedAddress::IP4FQDN(h) => TaggedC::Ip4Fqdn(h.to_string()),
+        ez::TaggedAddress::IP6(a) => TaggedC::Ip6(a.segments()),
+        ez::TaggedAddress::IP6FQDN(h) => TaggedC::Ip6Fqdn(h.to_string()),
+    }
+}
+
+fn from_untagged(t: &ez::UntaggedAddress) -> UntaggedC {
+    match t {
+        ez::UntaggedAddress::IpAddress(IpAddr::V4(a)) => UntaggedC::V4(a.octets()),
+        ez::UntaggedAddress::IpAddress(IpAddr::V6(a)) => UntaggedC::V6(a.segments()),
+        ez::UntaggedAddress::Fqdn(h) => UntaggedC::Fqdn(h.to_string()),
+    }
+}
+
+fn from_dir(d: ez::Direction) -> DirC {
+    match d {
+        ez::Direction::SendRecv => DirC::SendRecv,
+        ez::Direction::RecvOnly => DirC::RecvOnly,
+        ez::Direction::SendOnly => DirC::SendOnly,
+        ez::Direction::Inactive => DirC::Inactive,
+    }
+}
+
+fn from_conn(c: &ez::Connection) -> ConnC {
+    ConnC {
+        address: from_tagged(&c.address),
+        ttl: c.ttl,
+        num: c.num,
+    }
+}
+
+fn from_bw(b: &ez::Bandwidth) -> BwC {
+    BwC {
+        type_: b.type_.to_string(),
+        bandwidth: b.bandwidth,
+    }
+}
+
+fn from_attr(a: &ez::UnknownAttribute) -> AttrC {
+    AttrC {
+        name: a.name.to_string(),
+        value: a.value.as_ref().map(|v| v.to_string()),
+    }
+}
+
+fn from_suite(s: &ez::SrtpSuite) -> SuiteC {
+    if let ez::SrtpSuite::Ext(t) = s {
+        return SuiteC::Ext(t.to_string());
+    }
+    match suite_table().iter().position(|k| k == s) {
+        Some(i) => SuiteC::Known(i as u8),
+        // a variant this harness does not know: observed through its name
+        None => SuiteC::Ext(format!("<unknown variant {s:?}>")),
+    }
+}
+
+fn from_key(k: &ez::SrtpKeyingMaterial) -> KeyC {
+    KeyC {
+        key_and_salt: k.key_and_salt.to_string(),
+        lifetime: k.lifetime,
+        mki: k.mki,
+    }
+}
+
+fn from_param(p: &ez::SrtpSessionParam) -> ParamC {
+    use ez::SrtpSessionParam as P;
+    match p {
+        P::Kdr(v) => ParamC::Kdr(*v),
+        P::UnencryptedSrtp => ParamC::UnencryptedSrtp,
+        P::UnencryptedSrtcp => ParamC::UnencryptedSrtcp,
+        P::UnauthenticatedSrtp => ParamC::UnauthenticatedSrtp,
+        P::FecOrder(ez::SrtpFecOrder::FecSrtp) => ParamC::FecOrderFecSrtp,
+        P::FecOrder(ez::SrtpFecOrder::SrtpFec) => ParamC::FecOrderSrtpFec,
+        P::FecKey(ks) => ParamC::FecKey(ks.iter().map(from_key).collect()),
+        P::WindowSizeHint(v) => ParamC::Wsh(*v),
+        P::Ext(s) => ParamC::Ext(s.to_string()),
+    }
+}
+
+#[allow(unreachable_patterns)]
+fn from_media_type(t: &ez::MediaType) -> Result<MediaTypeC, String> {
+    Ok(match t {
+        ez::MediaType::Audio => MediaTypeC::Audio,
+        ez::MediaType::Video => MediaTypeC::Video,
+        ez::MediaType::Text => MediaTypeC::Text,
+        ez::MediaType::App => MediaTypeC::App,
+        other => return Err(format!("{other:?}")),
+    })
+}
+
+#[allow(unreachable_patterns)]
+fn from_proto(p: &ez::TransportProtocol) -> ProtoC {
+    match p {
+        ez::TransportProtocol::Unspecified => ProtoC::Udp,
+        ez::TransportProtocol::RtpAvp => ProtoC::RtpAvp,
+        ez::TransportProtocol::RtpSavp => ProtoC::RtpSavp,
+        ez::TransportProtocol::RtpSavpf => ProtoC::RtpSavpf,
+        ez::TransportProtocol::Other(s) => ProtoC::Other(s.to_string()),
+        other => ProtoC::Other(format!("<unknown variant {other:?}>")),
+    }
+}
+
+fn from_media(m: &ez::MediaDescription) -> MediaC {
+    MediaC {
+        // a media type this harness does not know cannot be an equal of any generated value;
+        // whole_token observes the raw variant itself
+        media_type: from_media_type(&m.media.media_type).unwrap_or(MediaTypeC::Audio),
+        port: m.media.port,
+        ports_num: m.media.ports_num,
+        proto: from_proto(&m.media.proto),
+        fmts: m.media.fmts.clone(),
+        direction: from_dir(m.direction),
+        connection: m.connection.as_ref().map(from_conn),
+        bandwidth: m.bandwidth.iter().map(from_bw).collect(),
+        rtcp: m.rtcp_attr.as_ref().map(|r| RtcpC {
+            port: r.port,
+            address: r.address.as_ref().map(from_tagged),
+        }),
+        rtpmaps: m
+            .rtpmaps
+            .iter()
+            .map(|r| RtpMapC {
+                payload: r.payload,
+                encoding: r.encoding.to_string(),
+                clock_rate: r.clock_rate,
+                params: r.params.as_ref().map(|p| p.to_string()),
+            })
+            .collect(),
+        fmtps: m
+            .fmtps
+            .iter()
+            .map(|f| FmtpC {
+                format: f.format,
+                params: f.params.to_string(),
+            })
+            .collect(),
+        ice_ufrag: m.ice_ufrag.as_ref().map(|u| u.ufrag.to_string()),
+        ice_pwd: m.ice_pwd.as_ref().map(|p| p.pwd.to_string()),
+        candidates: m
+            .ice_candidates
+            .iter()
+            .map(|c| CandC {
+                foundation: c.foundation.to_string(),
+                component: c.component,
+                transport: c.transport.to_string(),
+                priority: c.priority,
+                address: from_untagged(&c.address),
+                port: c.port,
+                typ: c.typ.to_string(),
+                rel_addr: c.rel_addr.as_ref().map(from_untagged),
+                rel_port: c.rel_port,
+                unknown: c.unknown.iter().map(|(k, v)| (k.to_string(), v.to_string())).collect(),
+            })
+            .collect(),
+        end_of_candidates: m.ice_end_of_candidates,
+        crypto: m
+            .crypto
+            .iter()
+            .map(|c| CryptoC {
+                tag: c.tag,
+                suite: from_suite(&c.suite),
+                keys: c.keys.iter().map(from_key).collect(),
+                params: c.params.iter().map(from_param).collect(),
+            })
+            .collect(),
+        attributes: m.attributes.iter().map(from_attr).collect(),
+    }
+}
+
+fn from_ezk(s: &ez::SessionDescription) -> SdpCase {
+    SdpCase {
+        origin: OriginC {
+            username: s.origin.username.to_string(),
+            session_id: s.origin.session_id.to_string(),
+            session_version: s.origin.session_version.to_string(),
+            address: from_tagged(&s.origin.address),
+        },
+        name: s.name.to_string(),
+        connection: s.connection.as_ref().map(from_conn),
+        bandwidth: s.bandwidth.iter().map(from_bw).collect(),
+        time: (s.time.start, s.time.stop),
+        direction: from_dir(s.direction),
+        ice_options: s.ice_options.options.iter().map(|o| o.to_string()).collect(),
+        ice_lite: s.ice_lite,
+        ice_ufrag: s.ice_ufrag.as_ref().map(|u| u.ufrag.to_string()),
+        ice_pwd: s.ice_pwd.as_ref().map(|p| p.pwd.to_string()),
+        attributes: s.attributes.iter().map(from_attr).collect(),
+        media: s.media_descriptions.iter().map(from_media).collect(),
+    }
+}
+
+// ---------------------------------------------------------------------------------------------
+// field-wise comparison (locus = narrow stable name of the field that differs)
+// ---------------------------------------------------------------------------------------------
+
+#[derive(Default)]
+struct Diff {
+    items: Vec<(&'static str, String)>,
+}
+
+impl Diff {
+    fn eq<T: PartialEq + std::fmt::Debug>(&mut self, locus: &'static str, at: &str, want: &T, got: &T) {
+        if want != got {
+            let mut w = format!("{want:?}");
+            let mut g = format!("{got:?}");
+            if w.len() > 300 {
+                w = format!("{}…", w.chars().take(300).collect::<String>());
+            }
+            if g.len() > 300 {
+                g = format!("{}…", g.chars().take(300).collect::<String>());
+            }
+            self.items.push((locus, format!("{at}: generated {w} but parsed back {g}")));
+        }
+    }
+}
+
+fn cmp_key(d: &mut Diff, at: &str, lk: (&'static str, &'static str, &'static str), w: &KeyC, g: &KeyC) {
+    d.eq(lk.0, at, &w.key_and_salt, &g.key_and_salt);
+    d.eq(lk.1, at, &w.lifetime, &g.lifetime);
+    d.eq(lk.2, at, &w.mki, &g.mki);
+}
+
+fn cmp_crypto(d: &mut Diff, at: &str, w: &CryptoC, g: &CryptoC) {
+    d.eq("crypto.tag", at, &w.tag, &g.tag);
+    d.eq("crypto.suite", at, &w.suite, &g.suite);
+    d.eq("crypto.keys.count", at, &w.keys.len(), &g.keys.len());
+    for (i, (wk, gk)) in w.keys.iter().zip(&g.keys).enumerate() {
+        cmp_key(
+            d,
+            &format!("{at}.keys[{i}]"),
+            ("crypto.key.key_and_salt", "crypto.key.lifetime", "crypto.key.mki"),
+            wk,
+            gk,
+        );
+    }
+    d.eq("crypto.params.count", at, &w.params.len(), &g.params.len());
+    for (i, (wp, gp)) in w.params.iter().zip(&g.params).enumerate() {
+        let at = format!("{at}.params[{i}]");
+        match (wp, gp) {
+            (ParamC::FecKey(wk), ParamC::FecKey(gk)) => {
+                d.eq("crypto.param.fec-key.count", &at, &wk.len(), &gk.len());
+                for (j, (a, b)) in wk.iter().zip(gk).enumerate() {
+                    cmp_key(
+                        d,
+                        &format!("{at}.fec_key[{j}]"),
+                        (
+                            "crypto.param.fec-key.key_and_salt",
+                            "crypto.param.fec-key.lifetime",
+                            "crypto.param.fec-key.mki",
+                        ),
+                        a,
+                        b,
+                    );
+                }
+            }
+            (ParamC::Ext(_), _) => d.eq("crypto.param.ext", &at, wp, gp),
+            _ => d.eq("crypto.param", &at, wp, gp),
+        }
+    }
+}
+
+fn cmp_cand(d: &mut Diff, at: &str, w: &CandC, g: &CandC) {
+    d.eq("candidate.foundation", at, &w.foundation, &g.foundation);
+    d.eq("candidate.component", at, &w.component, &g.component);
+    d.eq("candidate.transport", at, &w.transport, &g.transport);
+    d.eq("candidate.priority", at, &w.priority, &g.priority);
+    d.eq("candidate.address", at, &w.address, &g.address);
+    d.eq("candidate.port", at, &w.port, &g.port);
+    d.eq("candidate.typ", at, &w.typ, &g.typ);
+    d.eq("candidate.rel_addr", at, &w.rel_addr, &g.rel_addr);
+    d.eq("candidate.rel_port", at, &w.rel_port, &g.rel_port);
+    d.eq("candidate.unknown", at, &w.unknown, &g.unknown);
+}
+
+fn cmp_conn(d: &mut Diff, l: (&'static str, &'static str, &'static str), at: &str, w: &Option<ConnC>, g: &Option<ConnC>) {
+    match (w, g) {
+        (Some(w), Some(g)) => {
+            d.eq(l.0, at, &w.address, &g.address);
+            d.eq(l.1, at, &w.ttl, &g.ttl);
+            d.eq(l.2, at, &w.num, &g.num);
+        }
+        _ => d.eq(l.0, at, w, g),
+    }
+}
+
+fn cmp_media(d: &mut Diff, at: &str, w: &MediaC, g: &MediaC) {
+    d.eq("media.type", at, &w.media_type, &g.media_type);
+    d.eq("media.port", at, &w.port, &g.port);
+    d.eq("media.ports_num", at, &w.ports_num, &g.ports_num);
+    d.eq("media.proto", at, &w.proto, &g.proto);
+    d.eq("media.fmts", at, &w.fmts, &g.fmts);
+    d.eq("media.direction", at, &w.direction, &g.direction);
+    cmp_conn(
+        d,
+        ("media.connection.address", "media.connection.ttl", "media.connection.num"),
+        at,
+        &w.connection,
+        &g.connection,
+    );
+    d.eq("media.bandwidth", at, &w.bandwidth, &g.bandwidth);
+    match (&w.rtcp, &g.rtcp) {
+        (Some(wr), Some(gr)) => {
+            d.eq("media.rtcp.port", at, &wr.port, &gr.port);
+            d.eq("media.rtcp.address", at, &wr.address, &gr.address);
+        }
+        (wr, gr) => d.eq("media.rtcp", at, wr, gr),
+    }
+    d.eq("media.rtpmaps.count", at, &w.rtpmaps.len(), &g.rtpmaps.len());
+    for (i, (a, b)) in w.rtpmaps.iter().zip(&g.rtpmaps).enumerate() {
+        let at = format!("{at}.rtpmaps[{i}]");
+        d.eq("rtpmap.payload", &at, &a.payload, &b.payload);
+        d.eq("rtpmap.encoding", &at, &a.encoding, &b.encoding);
+        d.eq("rtpmap.clock_rate", &at, &a.clock_rate, &b.clock_rate);
+        d.eq("rtpmap.params", &at, &a.params, &b.params);
+    }
+    d.eq("media.fmtps.count", at, &w.fmtps.len(), &g.fmtps.len());
+    for (i, (a, b)) in w.fmtps.iter().zip(&g.fmtps).enumerate() {
+        let at = format!("{at}.fmtps[{i}]");
+        d.eq("fmtp.format", &at, &a.format, &b.format);
+        d.eq("fmtp.params", &at, &a.params, &b.params);
+    }
+    d.eq("media.ice-ufrag", at, &w.ice_ufrag, &g.ice_ufrag);
+    d.eq("media.ice-pwd", at, &w.ice_pwd, &g.ice_pwd);
+    d.eq("media.candidates.count", at, &w.candidates.len(), &g.candidates.len());
+    for (i, (a, b)) in w.candidates.iter().zip(&g.candidates).enumerate() {
+        cmp_cand(d, &format!("{at}.candidates[{i}]"), a, b);
+    }
+    d.eq("media.end-of-candidates", at, &w.end_of_candidates, &g.end_of_candidates);
+    d.eq("media.crypto.count", at, &w.crypto.len(), &g.crypto.len());
+    for (i, (a, b)) in w.crypto.iter().zip(&g.crypto).enumerate() {
+        cmp_crypto(d, &format!("{at}.crypto[{i}]"), a, b);
+    }
+    d.eq("media.attributes", at, &w.attributes, &g.attributes);
+}
+
+fn cmp_session(w: &SdpCase, g: &SdpCase) -> Diff {
+    let mut d = Diff::default();
+    let at = "session";
+    d.eq("origin.username", at, &w.origin.username, &g.origin.username);
+    d.eq("origin.session_id", at, &w.origin.session_id, &g.origin.session_id);
+    d.eq("origin.session_version", at, &w.origin.session_version, &g.origin.session_version);
+    d.eq("origin.address", at, &w.origin.address, &g.origin.address);
+    d.eq("session.name", at, &w.name, &g.name);
+    cmp_conn(
+        &mut d,
+        ("session.connection.address", "session.connection.ttl", "session.connection.num"),
+        at,
+        &w.connection,
+        &g.connection,
+    );
+    d.eq("session.bandwidth", at, &w.bandwidth, &g.bandwidth);
+    d.eq("session.time", at, &w.time, &g.time);
+    d.eq("session.direction", at, &w.direction, &g.direction);
+    d.eq("session.ice-options", at, &w.ice_options, &g.ice_options);
+    d.eq("session.ice-lite", at, &w.ice_lite, &g.ice_lite);
+    d.eq("session.ice-ufrag", at, &w.ice_ufrag, &g.ice_ufrag);
+    d.eq("session.ice-pwd", at, &w.ice_pwd, &g.ice_pwd);
+    d.eq("session.attributes", at, &w.attributes, &g.attributes);
+    d.eq("media.count", at, &w.media.len(), &g.media.len());
+    for (i, (a, b)) in w.media.iter().zip(&g.media).enumerate() {
+        cmp_media(&mut d, &format!("media[{i}]"), a, b);
+    }
+    d
+}
+
+// ---------------------------------------------------------------------------------------------
+// helpers
+// ---------------------------------------------------------------------------------------------
+
+fn parse(text: &str) -> Result<ez::SessionDescription, ez::ParseSessionDescriptionError> {
+    let src = BytesStr::from(text);
+    ez::SessionDescription::parse(&src)
+}
+
+const SKELETON: &str = "v=0\r\no=- 1 1 IN IP4 192.0.2.1\r\ns=-\r\nt=0 0\r\nm=audio 9 RTP/AVP 0\r\n";
+
+/// which kinds of lines of `text` are rejected when parsed alone behind a fixed valid skeleton
+/// (used only to give a re-parse error a narrow, data-free locus)
+fn rejected_line_kinds(text: &str) -> Vec<&'static str> {
+    let mut kinds: Vec<&'static str> = vec![];
+    for line in text.split("\r\n") {
+        if line.is_empty() {
+            continue;
+        }
+        let (kind, _) = rf::classify(line);
+        let doc = if matches!(kind, "v" | "o" | "s" | "t") {
+            format!("{line}\r\n{SKELETON}")
+        } else {
+            format!("{SKELETON}{line}\r\n")
+        };
+        if parse(&doc).is_err() && !kinds.contains(&kind) {
+            kinds.push(kind);
+        }
+    }
+    kinds
+}
+
+fn shorten(s: &str) -> String {
+    if s.chars().count() > 400 {
+        format!("{}…", s.chars().take(400).collect::<String>())
+    } else {
+        s.to_string()
+    }
+}
+
+fn is_pow2_exp(l: Option<u32>) -> bool {
+    matches!(l, Some(v) if v != 0 && v & (v - 1) == 0)
+}
+
+/// class labels + non-triviality by the rule of DESIGN.md C19
+fn classify_value(c: &SdpCase, out: &mut CaseOut) -> bool {
+    out.class(match c.media.len() {
+        0 => "media:0",
+        1 => "media:1",
+        2 => "media:2",
+        3 => "media:3",
+        _ => "media:4",
+    });
+    let mut interesting = false;
+    let edge = std::cell::Cell::new(false);
+    let e32 = |v: u32| {
+        if v == 0 || v == u32::MAX {
+            edge.set(true);
+        }
+    };
+    if !c.ice_options.is_empty() {
+        out.class("session:ice-options");
+        interesting = true;
+    }
+    if c.ice_options.len() >= 2 {
+        out.class("session:ice-options>=2");
+    }
+    if c.ice_lite {
+        out.class("session:ice-lite");
+    }
+    if c.direction != DirC::SendRecv {
+        out.class("session:direction-nondefault");
+    }
+    if let Some(conn) = &c.connection {
+        out.class("session:connection");
+        if conn.ttl.is_some() && conn.num.is_some() {
+            out.class("connection:ttl+num");
+        }
+        conn.ttl.map(e32);
+        conn.num.map(e32);
+    }
+    for t in [&c.origin.address] {
+        match t {
+            TaggedC::Ip6(_) => out.class("origin:ip6"),
+            TaggedC::Ip4Fqdn(_) | TaggedC::Ip6Fqdn(_) => out.class("origin:fqdn"),
+            _ => {}
+        }
+    }
+    if !c.attributes.is_empty() {
+        out.class("session:unknown-attr");
+    }
+    for b in &c.bandwidth {
+        e32(b.bandwidth);
+    }
+    if c.time.0 == u64::MAX || c.time.1 == u64::MAX {
+        edge.set(true);
+    }
+    for m in &c.media {
+        match &m.proto {
+            ProtoC::Udp => out.class("proto:udp"),
+            ProtoC::RtpAvp => out.class("proto:RTP/AVP"),
+            ProtoC::RtpSavp => out.class("proto:RTP/SAVP"),
+            ProtoC::RtpSavpf => out.class("proto:RTP/SAVPF"),
+            ProtoC::Other(s) => {
+                if PROTO_NAMES.iter().any(|k| s.starts_with(k)) {
+                    out.class("proto:other-extending-wellknown");
+                    interesting = true;
+                } else {
+                    out.class("proto:other");
+                }
+            }
+        }
+        if m.port == 0 || m.port == u16::MAX {
+            edge.set(true);
+        }
+        if let Some(n) = m.ports_num {
+            out.class("media:ports_num");
+            e32(n);
+        }
+        for f in &m.fmts {
+            e32(*f);
+        }
+        if m.fmts.is_empty() {
+            out.class("media:no-fmts");
+        }
+        if m.connection.is_some() {
+            out.class("media:connection");
+        }
+        if !m.bandwidth.is_empty() {
+            out.class("media:bandwidth");
+        }
+        if let Some(r) = &m.rtcp {
+            out.class(if r.address.is_some() { "rtcp:with-address" } else { "rtcp:port-only" });
+        }
+        if !m.rtpmaps.is_empty() {
+            out.class("media:rtpmap");
+        }
+        if m.rtpmaps.iter().any(|r| r.params.is_some()) {
+            out.class("rtpmap:params");
+        }
+        if !m.fmtps.is_empty() {
+            out.class("media:fmtp");
+        }
+        if m.ice_ufrag.is_some() || m.ice_pwd.is_some() {
+            out.class("media:ice-credentials");
+        }
+        if !m.candidates.is_empty() {
+            out.class("media:candidates");
+            interesting = true;
+        }
+        for cand in &m.candidates {
+            if cand.rel_addr.is_some() || cand.rel_port.is_some() {
+                out.class("candidate:raddr/rport");
+            }
+            if !cand.unknown.is_empty() {
+                out.class("candidate:extension-pairs");
+            }
+            match cand.address {
+                UntaggedC::V4(_) => out.class("candidate:ip4"),
+                UntaggedC::V6(_) => out.class("candidate:ip6"),
+                UntaggedC::Fqdn(_) => out.class("candidate:fqdn"),
+            }
+            if cand.priority == 0 || cand.priority == u64::MAX {
+                edge.set(true);
+            }
+        }
+        if m.end_of_candidates {
+            out.class("media:end-of-candidates");
+        }
+        if !m.crypto.is_empty() {
+            out.class("media:crypto");
+            interesting = true;
+        }
+        for cr in &m.crypto {
+            match &cr.suite {
+                SuiteC::Known(_) => out.class("suite:well-known"),
+                SuiteC::Ext(s) => {
+                    if SUITE_NAMES.iter().any(|k| s.starts_with(k)) {
+                        out.class("suite:ext-extending-wellknown");
+                    } else {
+                        out.class("suite:ext");
+                    }
+                }
+            }
+            e32(cr.tag);
+            if cr.keys.len() > 1 {
+                out.class("crypto:keys>=2");
+            }
+            for k in &cr.keys {
+                match k.lifetime {
+                    None => out.class("key:lifetime-none"),
+                    Some(_) if is_pow2_exp(k.lifetime) => out.class("key:lifetime-2^n"),
+                    Some(_) => out.class("key:lifetime-plain"),
+                }
+                if k.lifetime == Some(1 << 31) {
+                    out.class("key:lifetime-2^31");
+                    edge.set(true);
+                }
+                if k.mki.is_some() {
+                    out.class("key:mki");
+                }
+            }
+            for p in &cr.params {
+                out.class(match p {
+                    ParamC::Kdr(_) => "param:KDR",
+                    ParamC::UnencryptedSrtp => "param:UNENCRYPTED_SRTP",
+                    ParamC::UnencryptedSrtcp => "param:UNENCRYPTED_SRTCP",
+                    ParamC::UnauthenticatedSrtp => "param:UNAUTHENTICATED_SRTP",
+                    ParamC::FecOrderFecSrtp | ParamC::FecOrderSrtpFec => "param:FEC_ORDER",
+                    ParamC::FecKey(_) => "param:FEC_KEY",
+                    ParamC::Wsh(_) => "param:WSH",
+                    ParamC::Ext(_) => "param:ext",
+                });
+            }
+        }
+        if !m.attributes.is_empty() {
+            out.class("media:unknown-attr");
+        }
+    }
+    if edge.get() {
+        out.class("numeric-edge");
+        interesting = true;
+    }
+    if c.media.len() >= 2 && c.media.windows(2).any(|w| w[0] != w[1]) {
+        out.class("media:>=2-different");
+        interesting = true;
+    }
+    !c.media.is_empty() && interesting
+}
+
+// ---------------------------------------------------------------------------------------------
+// (b) roundtrip
+// ---------------------------------------------------------------------------------------------
+
+fn check_roundtrip(case: &SdpCase, out: &mut CaseOut) {
+    if classify_value(case, out) {
+        out.nontrivial(case);
+    }
+    let value = to_ezk(case);
+    let printed = value.to_string();
+
+    // (b3) independent line scanner: media-level lines stay inside their section
+    for (seg, kind, line) in rf::scan_placement(case, &printed) {
+        out.fail(
+            format!("c19.scan/misplaced:{kind}"),
+            format!(
+                "printed line {:?} appears in segment {seg} (0 = session part, i = after the i-th m= line) where the value has no such item; output: {:?}",
+                shorten(&line),
+                shorten(&printed)
+            ),
+        );
+    }
+
+    // (b1) print -> parse -> field-wise equal to the generated value
+    let mut reported: Vec<&'static str> = vec![];
+    match parse(&printed) {
+        Err(e) => {
+            let kinds = rejected_line_kinds(&printed);
+            if kinds.is_empty() {
+                out.fail(
+                    "c19.roundtrip/reparse-error:whole",
+                    format!("ezk rejects its own output ({e}); output: {:?}", shorten(&printed)),
+                );
+            }
+            for k in kinds {
+                out.fail(
+                    format!("c19.roundtrip/reparse-error:{k}"),
+                    format!(
+                        "ezk rejects its own output ({}) — a `{k}` line it printed does not parse; output: {:?}",
+                        shorten(&e.to_string()),
+                        shorten(&printed)
+                    ),
+                );
+            }
+        }
+        Ok(back) => {
+            let got = from_ezk(&back);
+            let d = cmp_session(case, &got);
+            for (locus, msg) in &d.items {
+                reported.push(locus);
+                out.fail(
+                    format!("c19.roundtrip/{locus}"),
+                    format!("{msg}; printed: {:?}", shorten(&printed)),
+                );
+            }
+            // (b2) printing is a fixpoint (only meaningful once the values agree)
+            if d.items.is_empty() {
+                let again = back.to_string();
+                if again != printed {
+                    out.fail(
+                        "c19.fixpoint/print-parse-print",
+                        format!("print(parse(print(v))) = {:?} differs from print(v) = {:?}", shorten(&again), shorten(&printed)),
+                    );
+                }
+            }
+        }
+    }
+
+    // (b4) the reference rendering of the same value parses to the same value
+    let reference = rf::ref_print(case);
+    match parse(&reference) {
+        Err(e) => {
+            for k in rejected_line_kinds(&reference) {
+                // a line kind ezk cannot even re-read from its own output is already reported
+                if !out.failures.iter().any(|f| f.sig == format!("c19.roundtrip/reparse-error:{k}")) {
+                    out.fail(
+                        format!("c19.parse-ref/error:{k}"),
+                        format!("reference SDP rejected ({}): {:?}", shorten(&e.to_string()), shorten(&reference)),
+                    );
+                }
+            }
+        }
+        Ok(back) => {
+            let got = from_ezk(&back);
+            for (locus, msg) in cmp_session(case, &got).items {
+                if !reported.contains(&locus) {
+                    out.fail(
+                        format!("c19.parse-ref/{locus}"),
+                        format!("{msg}; reference SDP: {:?}", shorten(&reference)),
+                    );
+                }
+            }
+        }
+    }
+    if out.note.is_none() {
+        out.note = Some(shorten(&printed));
+    }
+}
+
+// ---------------------------------------------------------------------------------------------
+// (a) parse_text
+// ---------------------------------------------------------------------------------------------
+
+#[derive(Clone, Debug, Serialize, Deserialize)]
+pub struct TextCase {
+    pub kind: String,
+    pub text: String,
+}
+
+fn text_cases() -> BoxedStrategy<TextCase> {
+    let tc = |k: &'static str| move |text: String| TextCase { kind: k.to_string(), text };
+    let mutated = (session(), proptest::collection::vec(mutation(), 1..=4)).prop_map(|(v, muts)| {
+        let mut t = rf::ref_print(&v);
+        for m in &muts {
+            t = apply_mutation(&t, m);
+        }
+        t
+    });
+    let lf_only = session().prop_map(|v| rf::ref_print(&v).replace("\r\n", "\n"));
     prop_oneof![
-        ".{0,200}",
-        "[ -~\r\n]{0,300}",
+        2 => "(?s).{0,200}".prop_map(tc("utf8")),
+        2 => "[ -~\r\n]{0,300}".prop_map(tc("ascii")),
+        3 => "([vosctbmaz]=[ -~]{0,30}\r?\n){0,12}".prop_map(tc("lines")),
+        2 => "(a=(crypto|candidate|rtpmap|fmtp|rtcp|ice-options|ice-ufrag|ice-pwd|ice-lite|end-of-candidates|sendrecv|x):?[ -~]{0,40}\r\n|m=(audio|video|text|application|image)[ -~]{0,30}\r\n|[ocbt]=[ -~]{0,30}\r\n|.{0,3}\r\n){0,10}".prop_map(tc("lines")),
+        6 => hostile_doc().prop_map(tc("hostile-numbers")),
+        9 => mutated.prop_map(tc("mutated-valid")),
+        1 => lf_only.prop_map(tc("valid-lf")),
     ]
     .boxed()
 }
 
-fn check_parse_text(text: &String, out: &mut CaseOut) {
-    let src = BytesStr::from(text.as_str());
-    let r = SessionDescription::parse(&src);
-    out.class(if r.is_ok() { "parsed" } else { "rejected" });
-    if text.contains("=") {
+fn check_parse_text(case: &TextCase, out: &mut CaseOut) {
+    out.class(match case.kind.as_str() {
+        "utf8" => "gen:utf8",
+        "ascii" => "gen:ascii",
+        "lines" => "gen:line-shaped",
+        "hostile-numbers" => "gen:hostile-numbers",
+        "mutated-valid" => "gen:mutated-valid",
+        "valid-lf" => "gen:valid-lf",
+        _ => "gen:other",
+    });
+    let text = &case.text;
+    // the call under test; a panic (incl. arithmetic overflow) is recorded by the engine
+    let r = parse(text);
+    match &r {
+        Ok(sd) => {
+            out.class("parsed");
+            if !sd.media_descriptions.is_empty() {
+                out.class("parsed:with-media");
+            }
+            if sd.media_descriptions.iter().any(|m| !m.crypto.is_empty()) {
+                out.class("parsed:with-crypto");
+            }
+            if sd.media_descriptions.iter().any(|m| !m.ice_candidates.is_empty()) {
+                out.class("parsed:with-candidate");
+            }
+            // what parsed must also print without panicking
+            let _ = sd.to_string();
+        }
+        Err(_) => out.class("rejected"),
+    }
+    if text.contains("2^") {
+        out.class("text:has-2^n");
+        let big = text.split("2^").skip(1).any(|rest| {
+            let digits: String = rest.chars().take_while(|c| c.is_ascii_digit()).collect();
+            digits.parse::<u64>().map_or(!digits.is_empty(), |n| n >= 32)
+        });
+        if big {
+            out.class("text:has-2^n,n>=32");
+        }
+    }
+    if text.split(|c: char| !c.is_ascii_digit()).any(|run| run.len() >= 11) {
+        out.class("text:number>=11-digits");
+    }
+    // non-trivial: at least one `<letter>=` line reaches a field parser
+    let reaches = text
+        .split(['\r', '\n'])
+        .any(|l| l.len() > 2 && l.as_bytes()[1] == b'=' && b"osctbma".contains(&l.as_bytes()[0]));
+    if reaches {
         out.nontrivial(text);
     }
 }
 
+// ---------------------------------------------------------------------------------------------
+// (c) whole_token
+// ---------------------------------------------------------------------------------------------
+
+#[derive(Clone, Copy, Debug, PartialEq, Eq, Serialize, Deserialize)]
+pub enum Site {
+    MediaType,
+    Proto,
+    Suite,
+}
+
+#[derive(Clone, Debug, Serialize, Deserialize)]
+pub struct TokenCase {
+    pub base: SdpCase,
+    /// used when the chosen media section has no crypto line
+    pub spare_crypto: CryptoC,
+    pub site: Site,
+    pub media_sel: u16,
+    pub crypto_sel: u16,
+    /// which well-known token is extended
+    pub known_sel: u16,
+    pub suffix: String,
+}
+
+fn token_cases() -> BoxedStrategy<TokenCase> {
+    let site = prop_oneof![Just(Site::MediaType), Just(Site::Proto), Just(Site::Suite)];
+    (
+        session_with_media(),
+        crypto_line(),
+        site,
+        any::<u16>(),
+        any::<u16>(),
+        any::<u16>(),
+        // one token character, occasionally two
+        prop_oneof![10 => "[A-Za-z0-9_]", 3 => "/", 1 => "/[A-Za-z0-9]", 2 => "[A-Za-z0-9_/]{2}"],
+    )
+        .prop_map(|(base, spare_crypto, site, media_sel, crypto_sel, known_sel, mut suffix)| {
+            // '/' only where the grammar allows it: proto = token *("/" token)
+            if site != Site::Proto {
+                suffix = suffix.replace('/', "_");
+            }
+            TokenCase {
+                base,
+                spare_crypto,
+                site,
+                media_sel,
+                crypto_sel,
+                known_sel,
+                suffix,
+            }
+        })
+        .boxed()
+}
+
+#[allow(unreachable_patterns)]
+fn observed_media_type_token(t: &ez::MediaType) -> String {
+    match from_media_type(t) {
+        Ok(m) => rf::media_type_token(m).to_string(),
+        // a catch-all variant a fix may add: observed through its Display
+        Err(_) => t.to_string(),
+    }
+}
+
+fn check_whole_token(case: &TokenCase, out: &mut CaseOut) {
+    let mut base = case.base.clone();
+    if base.media.is_empty() {
+        return;
+    }
+    let mi = pick_idx(case.media_sel, base.media.len());
+    if case.site == Site::Suite && base.media[mi].crypto.is_empty() {
+        base.media[mi].crypto.push(case.spare_crypto.clone());
+    }
+    let ci = pick_idx(case.crypto_sel, base.media[mi].crypto.len());
+    let mut lines = rf::ref_lines(&base);
+    let (known, whole): (&str, String) = match case.site {
+        Site::MediaType => {
+            let k = MEDIA_TYPE_NAMES[pick_idx(case.known_sel, MEDIA_TYPE_NAMES.len())];
+            (k, format!("{k}{}", case.suffix))
+        }
+        Site::Proto => {
+            let k = PROTO_NAMES[pick_idx(case.known_sel, PROTO_NAMES.len())];
+            (k, format!("{k}{}", case.suffix))
+        }
+        Site::Suite => {
+            let k = SUITE_NAMES[pick_idx(case.known_sel, SUITE_NAMES.len())];
+            (k, format!("{k}{}", case.suffix))
+        }
+    };
+    let m = &base.media[mi];
+    let (kind, index, new_text) = match case.site {
+        Site::MediaType => ("m", 0, rf::media_line(m, &whole, rf::proto_token(&m.proto))),
+        Site::Proto => ("m", 0, rf::media_line(m, rf::media_type_token(m.media_type), &whole)),
+        Site::Suite => ("crypto", ci, rf::crypto_line(&m.crypto[ci], &whole)),
+    };
+    let Some(line) = lines
+        .iter_mut()
+        .find(|l| l.section == mi + 1 && l.kind == kind && l.index == index)
+    else {
+        out.fail("c19.whole_token/harness", "reference printer did not produce the target line");
+        return;
+    };
+    line.text = new_text.clone();
+    let text = rf::join_lines(&lines);
+
+    out.class(match case.site {
+        Site::MediaType => "site:media-type",
+        Site::Proto => "site:proto",
+        Site::Suite => "site:suite",
+    });
+    let c0 = case.suffix.chars().next().unwrap_or('x');
+    out.class(if c0.is_ascii_digit() {
+        "suffix:digit"
+    } else if c0.is_ascii_alphabetic() {
+        "suffix:letter"
+    } else if c0 == '_' {
+        "suffix:_"
+    } else {
+        "suffix:/"
+    });
+    out.nontrivial(&(case.site as u8, known, &case.suffix, mi, &new_text));
+    out.note = Some(new_text.clone());
+
+    let parsed = match parse(&text) {
+        Err(_) => {
+            out.class("result:rejected");
+            return;
+        }
+        Ok(p) => p,
+    };
+    let Some(pm) = parsed.media_descriptions.get(mi) else {
+        out.fail(
+            "c19.whole_token/section-lost",
+            format!("line {new_text:?} accepted but media section {mi} does not exist in the result"),
+        );
+        return;
+    };
+    let site_name = match case.site {
+        Site::MediaType => "media-type",
+        Site::Proto => "proto",
+        Site::Suite => "suite",
+    };
+    let observed: String = match case.site {
+        Site::MediaType => observed_media_type_token(&pm.media.media_type),
+        Site::Proto => rf::proto_token(&from_proto(&pm.media.proto)).to_string(),
+        Site::Suite => match pm.crypto.get(ci) {
+            Some(c) => rf::suite_token(&from_suite(&c.suite)).to_string(),
+            None => {
+                out.fail(
+                    "c19.whole_token/crypto-line-lost",
+                    format!("line {new_text:?} accepted but crypto line {ci} of section {mi} does not exist in the result"),
+                );
+                return;
+            }
+        },
+    };
+    if observed != whole {
+        let how = if observed == known { "prefix" } else { "other" };
+        out.fail(
+            format!("c19.whole_token/{site_name}-{how}"),
+            format!(
+                "token {whole:?} in line {new_text:?} was accepted as {observed:?} (must be an error or the whole token)"
+            ),
+        );
+        return;
+    }
+    out.class("result:whole-token");
+    // the rest of the line must be untouched by the longer token
+    let gm = from_media(pm);
+    let intact = match case.site {
+        Site::MediaType | Site::Proto => gm.port == m.port && gm.ports_num == m.ports_num && gm.fmts == m.fmts,
+        Site::Suite => {
+            let gc = &gm.crypto[ci];
+            gc.tag == m.crypto[ci].tag && gc.keys == m.crypto[ci].keys && gc.params == m.crypto[ci].params
+        }
+    };
+    if !intact {
+        out.fail(
+            format!("c19.whole_token/{site_name}-line-damaged"),
+            format!("line {new_text:?}: token accepted whole but the remaining fields changed: {:?}", pm),
+        );
+    }
+}
+
+// ---------------------------------------------------------------------------------------------
+
 pub fn property() -> Property {
     Property {
         id: "C19",
-        rule: "TODO",
-        assumptions: vec![],
-        explanation: "TODO",
-        subs: vec![prop_sub("parse_text", any_text, 200, 2000, check_parse_text)],
+        rule: "roundtrip: a generated SessionDescription value is non-trivial when it has >=1 media section and at least one of: >=2 \
+               different sections, a candidate / crypto line / ice-options, an Other/Ext token extending a well-known one, a numeric \
+               field at a range edge; distinct = hash of the whole value. parse_text: non-trivial when at least one `<o|s|c|t|b|m|a>=` \
+               line reaches a field parser; distinct = hash of the text. whole_token: every case (site, well-known token, suffix, \
+               section, line) is non-trivial.",
+        assumptions: vec![
+            "values stay inside each field's documented grammar (see gen/sdp.rs module doc): no empty key list / FecKey([]), no fmtp \
+             params with leading blank, unknown attributes / Ext params / Other tokens never named exactly like a known one, IP4 \
+             connection `num` only with `ttl`, FQDNs are not IP literals",
+            "the reference rendering uses RFC 8866/8839/4568 syntax with single blanks, the same syntax ezk's own unit tests use",
+        ],
+        explanation: "Sampled, not exhaustive: 16 independent proptest shards per sub-check. Values are drawn over every field of the \
+                      public SessionDescription/MediaDescription structs (0..4 media sections, 0..n of each attribute, integers over \
+                      their full range with weight on 0/MAX/powers of two); texts are arbitrary UTF-8, line-shaped ASCII, \
+                      grammar-derived lines with numbers up to 41 digits and 2^n with n<=99, and 1..4 char/line/number mutations of \
+                      valid reference SDP.",
+        subs: vec![
+            prop_sub("parse_text", text_cases, 5000, 100_000, check_parse_text),
+            prop_sub("roundtrip", session, 3000, 100_000, check_roundtrip),
+            prop_sub("whole_token", token_cases, 1500, 30_000, check_whole_token),
+        ],
     }
 }
